@@ -221,6 +221,14 @@ fn binary(e: &str, f: &str) -> Vec<String> {
 fn paren(e: &str) -> String {
     if e.chars().all(|c| c.is_alphanumeric() || c == '"' || c == '_') { e.to_string() } else { format!("({})", e) }
 }
+// the same program with the prelude in another module: every named type is imported
+fn split(e: &str) -> Vec<(String, String)> {
+    let lib: String = PRELUDE.lines().map(|l| {
+        if l.starts_with("type ") || l.starts_with("interface ") || l.starts_with("enum ") { format!("export {}\n", l) } else { format!("{}\n", l) }
+    }).collect();
+    let names = "O, O2, U, Tup, Rec, RT, G, Alias, D1, D2, RS, RM, En, I1, I2, GC, Fn, Shape, KC, MK";
+    vec![("lib.ts".to_string(), lib), ("entry.ts".to_string(), format!("import {{ {} }} from \"./lib\";\ntype X = {};\nparse.buildParsers<{{ X: X }}>();\n", names, e))]
+}
 fn single(e: &str) -> Vec<(String, String)> {
     vec![("entry.ts".to_string(), format!("{}type X = {};\nparse.buildParsers<{{ X: X }}>();\n", PRELUDE, e))]
 }
@@ -324,6 +332,8 @@ fn programs(depth: usize, offset: usize) -> Vec<(String, Vec<(String, String)>)>
     for l in &ls { for u in unary(l) { d1.push(u); } }
     for a in &ls { for b in &ls { for e in binary(a, b) { d1.push(e); } } }
     for e in &d1 { out.push((e.clone(), single(e))); }
+    // every third depth-1 program once more with the named types imported from another module
+    for (k, e) in d1.iter().enumerate() { if k % 3 == offset % 3 { out.push((format!("{} (prelude imported from lib.ts)", e), split(e))); } }
     if depth >= 2 {
         // unary over every depth-1 expression whose index is a multiple of 7 (thinned), and binary with a leaf
         for (k, e) in d1.iter().enumerate() {
